@@ -884,6 +884,17 @@ impl RootRef<'_> {
         mut flags: OpenFlags,
         perm: &Permissions,
     ) -> Result<File, Error> {
+        // With O_PATH the kernel silently ignores O_CREAT, which would turn
+        // this into a plain open of the final component -- and the final
+        // component is not resolved by us (so "..", for instance, would be
+        // opened as-is and could name the parent of the root).
+        if flags.contains(OpenFlags::O_PATH) {
+            Err(ErrorImpl::InvalidArgument {
+                name: "flags".into(),
+                description: "O_PATH cannot be used to create a file".into(),
+            })?
+        }
+
         // The path doesn't exist yet, so we need to get a safe reference to the
         // parent and just operate on the final (slashless) component.
         let (dir, name) = self
